@@ -130,6 +130,261 @@ fn same_kind(a: &Token, b: &Token) -> bool {
 
 const FIELDS: [&str; 6] = ["index", "generation", "length", "free", "bogus", "Index"];
 
+/// Positions of the parts of one serialized archetype in a token stream.
+struct ArchPos {
+    /// index of the declared `length` token
+    length: usize,
+    /// index of the start token of the rows (row-wise) or columns (column-wise) container
+    body: usize,
+}
+
+fn find_archetypes(toks: &[Token]) -> Vec<ArchPos> {
+    let mut out = Vec::new();
+    for i in 0..toks.len() {
+        if let Token::NewtypeStruct { name: "Archetype" } = &toks[i] {
+            if i + 2 < toks.len() && is_start(&toks[i + 1]) {
+                let ident_end = value_end(toks, i + 2);
+                if ident_end + 1 < toks.len() && num_get(&toks[ident_end]).is_some() && is_start(&toks[ident_end + 1]) {
+                    out.push(ArchPos { length: ident_end, body: ident_end + 1 });
+                }
+            }
+        }
+    }
+    out
+}
+
+/// Children (start, end) of the container starting at `i`.
+fn children(toks: &[Token], i: usize) -> Vec<(usize, usize)> {
+    let end = value_end(toks, i);
+    let mut out = Vec::new();
+    let mut j = i + 1;
+    while j + 1 < end {
+        let e = value_end(toks, j);
+        out.push((j, e));
+        j = e;
+    }
+    out
+}
+
+fn bump_len(t: &mut Token, delta: i64) {
+    let f = |l: usize| (l as i64 + delta).max(0) as usize;
+    match t {
+        Token::Seq { len: Some(l) } => *l = f(*l),
+        Token::Tuple { len } | Token::TupleStruct { len, .. } | Token::Struct { len, .. } => *len = f(*len),
+        t => {
+            if let Some(x) = num_get(t) {
+                num_set(t, (x as i64 + delta).max(0) as u64);
+            }
+        }
+    }
+}
+
+/// Structure-aware compound edits that keep the surrounding declared lengths consistent, so that
+/// only the targeted inconsistency remains (duplicate / missing entity, free-list corruption).
+fn macro_edit_tokens(toks: &mut Vec<Token>, e: &Edit, human_readable: bool) -> bool {
+    let archs = find_archetypes(toks);
+    match e.kind % 6 {
+        // duplicate (0) or delete (1) one row of one archetype, adjusting every declared length
+        0 | 1 if !archs.is_empty() => {
+            let a = &archs[idx(e.a, archs.len())];
+            let dup = e.kind % 6 == 0;
+            let delta = if dup { 1 } else { -1 };
+            if human_readable {
+                let rows = children(toks, a.body);
+                if rows.is_empty() {
+                    return false;
+                }
+                let (rs, re) = rows[idx(e.b, rows.len())];
+                let row: Vec<Token> = toks[rs..re].to_vec();
+                if dup {
+                    toks.splice(re..re, row);
+                } else {
+                    toks.drain(rs..re);
+                }
+                bump_len(&mut toks[a.body], delta);
+                bump_len(&mut toks[a.length], delta);
+            } else {
+                // column-wise: the same element of every column; go from the last column backwards
+                let cols = children(toks, a.body);
+                if cols.is_empty() {
+                    return false;
+                }
+                let n0 = children(toks, cols[0].0).len();
+                if n0 == 0 {
+                    return false;
+                }
+                let r = idx(e.b, n0);
+                for (cs, _) in cols.iter().rev() {
+                    let elems = children(toks, *cs);
+                    if r < elems.len() {
+                        let (es, ee) = elems[r];
+                        let el: Vec<Token> = toks[es..ee].to_vec();
+                        if dup {
+                            toks.splice(ee..ee, el);
+                        } else {
+                            toks.drain(es..ee);
+                        }
+                        bump_len(&mut toks[*cs], delta);
+                    }
+                }
+                bump_len(&mut toks[a.length], delta);
+            }
+            true
+        }
+        // free list: duplicate an entry (2), add a stored identifier to it (3), drop an entry (4)
+        2 | 3 | 4 => {
+            // the free list is the last Seq before the resources: find `Field("free")` or, with
+            // structs as sequences, the Seq following the allocator's length
+            let mut free_at = None;
+            for i in 0..toks.len() {
+                if matches!(toks[i], Token::Field("free")) && i + 1 < toks.len() && is_start(&toks[i + 1]) {
+                    free_at = Some(i + 1);
+                }
+            }
+            if free_at.is_none() {
+                // struct-as-seq: after the archetypes' SeqEnd comes Seq{2}, length, Seq{..}
+                let mut depth = 0usize;
+                for i in 1..toks.len() {
+                    if is_start(&toks[i]) {
+                        depth += 1;
+                    } else if is_end(&toks[i]) {
+                        depth = depth.saturating_sub(1);
+                        if depth == 0 && i + 3 < toks.len() && is_start(&toks[i + 1]) && num_get(&toks[i + 2]).is_some() && is_start(&toks[i + 3]) {
+                            free_at = Some(i + 3);
+                            break;
+                        }
+                    }
+                }
+            }
+            let Some(f) = free_at else { return false };
+            let entries = children(toks, f);
+            match e.kind % 6 {
+                2 if !entries.is_empty() => {
+                    let (s0, e0) = entries[idx(e.a, entries.len())];
+                    let copy: Vec<Token> = toks[s0..e0].to_vec();
+                    toks.splice(e0..e0, copy);
+                    bump_len(&mut toks[f], 1);
+                    true
+                }
+                3 => {
+                    // copy the identifier of a stored row into the free list
+                    let ids: Vec<usize> = (0..f).filter(|i| matches!(&toks[*i], Token::Struct { name: "Identifier", .. })).collect();
+                    if ids.is_empty() {
+                        return false;
+                    }
+                    let i = ids[idx(e.a, ids.len())];
+                    let copy: Vec<Token> = toks[i..value_end(toks, i)].to_vec();
+                    let at = value_end(toks, f) - 1;
+                    toks.splice(at..at, copy);
+                    bump_len(&mut toks[f], 1);
+                    true
+                }
+                4 if !entries.is_empty() => {
+                    let (s0, e0) = entries[idx(e.a, entries.len())];
+                    toks.drain(s0..e0);
+                    bump_len(&mut toks[f], -1);
+                    true
+                }
+                _ => false,
+            }
+        }
+        // copy one stored entity identifier over another one (same archetype or not)
+        _ => {
+            let ids: Vec<usize> = (0..toks.len()).filter(|i| matches!(&toks[*i], Token::Struct { name: "Identifier", .. })).collect();
+            if ids.len() < 2 {
+                return false;
+            }
+            let (i, j) = (ids[idx(e.a, ids.len())], ids[idx(e.b, ids.len())]);
+            if i == j {
+                return false;
+            }
+            let src: Vec<Token> = toks[j..value_end(toks, j)].to_vec();
+            let ie = value_end(toks, i);
+            toks.splice(i..ie, src);
+            true
+        }
+    }
+}
+
+/// The same compound edits on the JSON form `[[ [ident, length, [rows..]] .. ], {length, free}, [res..]]`.
+fn macro_edit_json(text: &mut String, e: &Edit) -> bool {
+    let Ok(mut v) = serde_json::from_str::<Value>(text) else { return false };
+    let done = (|| {
+        let top = v.as_array_mut()?;
+        match e.kind % 6 {
+            0 | 1 => {
+                let archs = top.get_mut(0)?.as_array_mut()?;
+                if archs.is_empty() {
+                    return None;
+                }
+                let ai = idx(e.a, archs.len());
+                let a = archs[ai].as_array_mut()?;
+                let len = a.get(1)?.as_u64()?;
+                let rows = a.get_mut(2)?.as_array_mut()?;
+                if rows.is_empty() {
+                    return None;
+                }
+                let r = idx(e.b, rows.len());
+                if e.kind % 6 == 0 {
+                    let c = rows[r].clone();
+                    rows.insert(r, c);
+                    a[1] = Value::from(len + 1);
+                } else {
+                    rows.remove(r);
+                    a[1] = Value::from(len.saturating_sub(1));
+                }
+                Some(())
+            }
+            2 | 3 | 4 => {
+                let stored: Vec<Value> = top.first()?.as_array()?.iter().filter_map(|a| a.as_array()?.get(2)?.as_array().cloned()).flatten().filter_map(|row| row.as_array()?.first().cloned()).collect();
+                let free = top.get_mut(1)?.as_object_mut()?.get_mut("free")?.as_array_mut()?;
+                match e.kind % 6 {
+                    2 if !free.is_empty() => {
+                        let c = free[idx(e.a, free.len())].clone();
+                        free.push(c);
+                    }
+                    3 if !stored.is_empty() => free.push(stored[idx(e.a, stored.len())].clone()),
+                    4 if !free.is_empty() => {
+                        free.remove(idx(e.a, free.len()));
+                    }
+                    _ => return None,
+                }
+                Some(())
+            }
+            _ => {
+                let archs = top.get_mut(0)?.as_array_mut()?;
+                let mut ids: Vec<Value> = Vec::new();
+                for a in archs.iter() {
+                    for row in a.as_array()?.get(2)?.as_array()? {
+                        ids.push(row.as_array()?.first()?.clone());
+                    }
+                }
+                if ids.len() < 2 {
+                    return None;
+                }
+                let src = ids[idx(e.b, ids.len())].clone();
+                let mut k = idx(e.a, ids.len());
+                for a in archs.iter_mut() {
+                    for row in a.as_array_mut()?.get_mut(2)?.as_array_mut()? {
+                        if k == 0 {
+                            *row.as_array_mut()?.first_mut()? = src;
+                            return Some(());
+                        }
+                        k -= 1;
+                    }
+                }
+                None
+            }
+        }
+    })();
+    if done.is_some() {
+        *text = v.to_string();
+        true
+    } else {
+        false
+    }
+}
+
 pub fn edit_tokens(toks: &mut Vec<Token>, e: &Edit) {
     let n = toks.len();
     if n == 0 {
@@ -475,11 +730,46 @@ pub fn edit_json(text: &mut String, e: &Edit) {
     *text = v.to_string();
 }
 
+/// The order in which a world serializes its archetype tables depends on heap addresses. Sort the
+/// tables of a valid serialization by their identifier so that an edit script means the same
+/// thing in every run (any order is a valid serialization of the same world).
+pub fn canonicalize(e: &Encoded) -> Encoded {
+    match e {
+        Encoded::Json(text) => {
+            let Ok(mut v) = serde_json::from_str::<Value>(text) else { return e.clone() };
+            if let Some(archs) = v.get_mut(0).and_then(|a| a.as_array_mut()) {
+                archs.sort_by_key(|a| a.get(0).map(|i| i.to_string()).unwrap_or_default());
+            }
+            Encoded::Json(v.to_string())
+        }
+        Encoded::Tokens(t, enc) => {
+            let toks = &t.0;
+            if toks.len() < 2 || !is_start(&toks[1]) {
+                return e.clone();
+            }
+            let kids = children(toks, 1);
+            let mut parts: Vec<Vec<Token>> = kids.iter().map(|(a, b)| toks[*a..*b].to_vec()).collect();
+            parts.sort_by_key(|p| format!("{:?}", &p[..p.len().min(3 + 16)]));
+            let mut out: Vec<Token> = toks[..2].to_vec();
+            for p in parts {
+                out.extend(p);
+            }
+            let end = value_end(toks, 1);
+            out.extend_from_slice(&toks[end - 1..]);
+            Encoded::Tokens(serde_assert::Tokens(out), *enc)
+        }
+    }
+}
+
 pub fn apply_edits(base: &Encoded, edits: &[Edit]) -> Encoded {
     match base {
         Encoded::Json(s) => {
             let mut s = s.clone();
             for e in edits {
+                // a quarter of the edits are structure-aware compound edits
+                if e.kind >= 192 && macro_edit_json(&mut s, e) {
+                    continue;
+                }
                 edit_json(&mut s, e);
             }
             Encoded::Json(s)
@@ -487,6 +777,9 @@ pub fn apply_edits(base: &Encoded, edits: &[Edit]) -> Encoded {
         Encoded::Tokens(t, enc) => {
             let mut v = t.0.clone();
             for e in edits {
+                if e.kind >= 192 && macro_edit_tokens(&mut v, e, enc.human_readable()) {
+                    continue;
+                }
                 edit_tokens(&mut v, e);
             }
             Encoded::Tokens(serde_assert::Tokens(v), *enc)
@@ -566,6 +859,8 @@ pub struct DeserStats {
     pub follow_ops: usize,
     pub base_failed: bool,
     pub screened: bool,
+    pub leak_signature: String,
+    pub leak_excluded: bool,
 }
 
 pub struct DeserOutcome {
@@ -578,6 +873,10 @@ fn fail(props: &'static [&'static str], oracle: &'static str, msg: String) -> Op
 }
 
 pub fn run_deser_case<R: Reg>(case: &DeserCase, prop: &str, slot: usize) -> DeserOutcome {
+    run_deser_case_known::<R>(case, prop, slot, &[])
+}
+
+pub fn run_deser_case_known<R: Reg>(case: &DeserCase, prop: &str, slot: usize, leak_known: &[String]) -> DeserOutcome {
     static CASES: std::sync::atomic::AtomicU64 = std::sync::atomic::AtomicU64::new(0);
     let n = CASES.fetch_add(1, Ordering::Relaxed);
     ledger::reset((n % 1000 + 1) * 1_000_000);
@@ -599,7 +898,7 @@ pub fn run_deser_case<R: Reg>(case: &DeserCase, prop: &str, slot: usize) -> Dese
         let Some(s0) = interp.slots[0].as_ref() else { return None };
         stats.base_entities = s0.model.ents.len();
         let base = match R::serialize(&s0.real, case.enc) {
-            Ok(e) => e,
+            Ok(e) => canonicalize(&e),
             Err(_) => {
                 stats.base_failed = true;
                 return None;
@@ -644,6 +943,16 @@ pub fn run_deser_case<R: Reg>(case: &DeserCase, prop: &str, slot: usize) -> Dese
                 // values constructed during the failed attempt and never dropped (reported, see DESIGN)
                 let live_after = ledger::live_serials();
                 stats.leaked_on_error = live_after.iter().filter(|s| !live_before.contains(s)).count() as u64;
+                stats.leak_signature = format!("deser-leak:{}:{}", if case.enc.human_readable() { "row-wise" } else { "column-wise" }, stats.err_class);
+                if prop == "C04" && stats.leaked_on_error > 0 {
+                    if leak_known.iter().any(|k| stats.leak_signature.starts_with(k.as_str())) {
+                        stats.leak_excluded = true;
+                    } else {
+                        let first = live_after.iter().find(|s| !live_before.contains(s)).copied().unwrap_or(0);
+                        std::mem::forget(interp);
+                        return fail(&["C04"], "leak-on-failed-deserialization", format!("deserialization returned Err ({e}) but {} values it had constructed were never dropped, e.g. serial {first:#x} [{}]", stats.leaked_on_error, stats.leak_signature));
+                    }
+                }
                 // the base world must be unaffected
                 let r = catch_unwind(AssertUnwindSafe(|| {
                     interp.muted.insert("exactly-once");
@@ -749,7 +1058,11 @@ pub fn run_deser_case<R: Reg>(case: &DeserCase, prop: &str, slot: usize) -> Dese
     })();
     set_quiet(false);
     talloc::track_set(false);
-    let _ = prop;
+    // for C04 only its own oracle (and double drops) decide; everything else is C11's business
+    let out = match out {
+        Some(f) if prop == "C04" && !f.props.contains(&"C04") => None,
+        other => other,
+    };
     DeserOutcome { stats, fail: out }
 }
 
@@ -766,6 +1079,7 @@ fn case_strategy(thorough: bool) -> BoxedStrategy<DeserCase> {
     base.debug = 0;
     base.drop_world = 0;
     base.query = 1;
+    base.par_query = 0;
     base.entry_query = 0;
     base.entries_query = 0;
     base.w0_bias = 100;
@@ -823,7 +1137,7 @@ pub fn run_deser<R: Reg>(cfg: &crate::runner::Config) -> DeserReport {
                         }
                         let text = serde_json::to_string(&DeserReplay { property: cfg.prop.clone(), engine: "deser".into(), registry: R::NAME.into(), pool_digest: cfg.pool_digest.clone(), seed: cfg.seed, case: case.clone(), failure: "fatal signal while this case was running".into(), oracle: "crash".into() }).unwrap_or_default();
                         crate::crash::announce(wi, &text);
-                        let out = run_deser_case::<R>(&case, &cfg.prop, wi);
+                        let out = run_deser_case_known::<R>(&case, &cfg.prop, wi, &cfg.excl.deser_leak_known);
                         crate::crash::clear(wi);
                         if !failed.get() {
                             let mut l = local.borrow_mut();
@@ -841,7 +1155,7 @@ pub fn run_deser<R: Reg>(cfg: &crate::runner::Config) -> DeserReport {
                             if st.outcome_err {
                                 add(format!("err: {}", st.err_class), 1);
                                 if st.leaked_on_error > 0 {
-                                    add(format!("leak after err ({}): {}", if case.enc.human_readable() { "row-wise" } else { "column-wise" }, st.err_class), 1);
+                                    add(format!("{}{}", st.leak_signature, if st.leak_excluded { " (known finding, excluded)" } else { "" }), 1);
                                 }
                             }
                             if out.fail.is_none() && st.edited_differs && st.base_entities > 0 && (st.outcome_ok || st.outcome_err) {
@@ -863,7 +1177,7 @@ pub fn run_deser<R: Reg>(cfg: &crate::runner::Config) -> DeserReport {
                     let mut local = local.into_inner();
                     if let Err(TestError::Fail(reason, case)) = result {
                         stop.store(true, Ordering::Relaxed);
-                        let out = run_deser_case::<R>(&case, &cfg.prop, wi);
+                        let out = run_deser_case_known::<R>(&case, &cfg.prop, wi, &cfg.excl.deser_leak_known);
                         let (msg, oracle) = match out.fail {
                             Some(f) => (f.msg, f.oracle.to_string()),
                             None => (reason.to_string(), String::new()),
